@@ -117,11 +117,34 @@ class QueueShim(object):
 
 
 def install_queue_shim():
+    """
+    Makes pools built from now on use MonitoredQueue, however the pool module spells its import:
+    `import queue` (the module-level name is replaced by a shim) or `from queue import Queue` (the name is rebound).
+    Whether it worked is verified per pool by find_monitored_queue().
+    """
     import jsonrpclib.threadpool as tp
-    if getattr(tp, "queue", None) is None:
-        return False
-    tp.queue = QueueShim
-    return True
+    done = False
+    if getattr(tp, "queue", None) is _real_queue or getattr(tp, "queue", None) is QueueShim:
+        tp.queue = QueueShim
+        done = True
+    for name, value in list(vars(tp).items()):
+        if value is _real_queue.Queue:
+            setattr(tp, name, MonitoredQueue)
+            done = True
+    return done
+
+
+def find_monitored_queue(pool):
+    """The pool's task queue, found by type (no attribute name is assumed)."""
+    for value in vars(pool).values():
+        if isinstance(value, MonitoredQueue):
+            return value
+    return None
+
+
+def is_worker_name(name):
+    """Threads the harness did not create are the pool's workers (thread names are not part of the pool's API)."""
+    return not name.startswith("vf-") and name != "MainThread"
 
 
 # ---------------------------------------------------------------------------
@@ -335,10 +358,12 @@ class PoolRun(object):
         self.controller_done = threading.Event()
         self.running = False
         self.go = [threading.Event() for _ in prog["enqueuers"]]
+        self.preexisting = set()
 
     # -- helpers
     def workers_alive(self):
-        return [t for t in threading.enumerate() if t.name.startswith(self.name + "-")]
+        # worker threads of THIS pool: created after the pool, not by the harness
+        return [t for t in threading.enumerate() if t not in self.preexisting and is_worker_name(t.name)]
 
     def make_task(self, op):
         tok, kind = op[1], op[2]
@@ -371,6 +396,7 @@ class PoolRun(object):
         """Before a potentially blocking operation: all gates get released shortly."""
         delay = (hash((self.name, len(self.h))) % 4) * 0.001
         timer = threading.Timer(delay, self.release_all.set)
+        timer.name = "vf-releaser"
         timer.daemon = True
         timer.start()
         return timer
@@ -533,8 +559,13 @@ class PoolRun(object):
         import jsonrpclib.threadpool as tp
         set_current(self.h)
         prog = self.prog
+        self.preexisting = set(threading.enumerate())
         self.pool = tp.ThreadPool(prog["max"], prog["min"], queue_size=prog["queue_size"],
                                   timeout=prog["timeout"], logname=self.name)
+        if find_monitored_queue(self.pool) is None:
+            self.error = "the pool did not build its queue through queue.Queue: MonitoredQueue not attached"
+            set_current(None)
+            return []
         h = self.h
         h.ev("pool_created", max=prog["max"], min=prog["min"])
         threads = [threading.Thread(target=self.controller, name="vf-controller")]
@@ -657,7 +688,7 @@ def index(events):
         elif kind == "sample":
             ix["samples"].append((seq, f["alive"]))
         elif kind == "get_call":
-            if ident.startswith("vfpool"):
+            if is_worker_name(ident):
                 w = ix["workers"].setdefault(ident, [seq, seq])
                 w[1] = seq
         elif kind == "barrier_end":
